@@ -1,0 +1,39 @@
+//go:build verif
+// +build verif
+
+package block
+
+import (
+	"github.com/ElrondNetwork/elrond-go/core"
+	"github.com/ElrondNetwork/elrond-go/data"
+	"github.com/ElrondNetwork/elrond-go/data/state"
+)
+
+// VerifUpdateStateStorage is a thin wrapper over the unexported updateStateStorage (the finalization half of
+// the state pruning schedule: optional checkpoint, pruning queue, CancelPrune(New) + PruneTrie(Old)).
+// It exists only with the build tag verif and changes no behaviour.
+func (bp *baseProcessor) VerifUpdateStateStorage(
+	finalHeader data.HeaderHandler,
+	rootHash []byte,
+	prevRootHash []byte,
+	accounts state.AccountsAdapter,
+	statePruningQueue core.Queue,
+) {
+	bp.updateStateStorage(finalHeader, rootHash, prevRootHash, accounts, statePruningQueue)
+}
+
+// VerifUpdateUserStateStorage calls updateStateStorage exactly as shardProcessor.updateState does for one
+// final header: with the processor's own user accounts adapter and its own user-state pruning queue.
+func (sp *shardProcessor) VerifUpdateUserStateStorage(
+	finalHeader data.HeaderHandler,
+	rootHash []byte,
+	prevRootHash []byte,
+) {
+	sp.updateStateStorage(
+		finalHeader,
+		rootHash,
+		prevRootHash,
+		sp.accountsDB[state.UserAccountsState],
+		sp.userStatePruningQueue,
+	)
+}
